@@ -3,7 +3,9 @@ package main
 // thorough tier: (1) the property's rules are re-run on a second load of the tree for GOARCH=386 (covers what a
 // different build configuration type-checks); (2) every seeded breaking change filed for this property
 // (/verif/seeded/*/meta.json, /verif/mutants/<prop>-*.patch) is applied to a scratch copy outside /repo and /verif
-// and the property's check must report it (positive controls: the checker still discriminates).
+// and the property's check must report it (positive controls: the checker still discriminates); (3) every
+// behaviour-preserving refactoring filed under /verif/benign is applied the same way and the check must stay silent
+// (negative controls: the rules judge the structure the property depends on, not the spelling of today's tree).
 
 import (
 	"encoding/json"
@@ -49,6 +51,26 @@ func controlsFor(prop string) []control {
 	return out
 }
 
+// benignControls: behaviour-preserving rewrites (written without knowledge of the checker) on which no property
+// may raise an alarm.
+func benignControls() []control {
+	var out []control
+	dir := filepath.Join(verifDir(), "benign")
+	ents, _ := os.ReadDir(dir)
+	for _, e := range ents {
+		if e.IsDir() {
+			p := filepath.Join(dir, e.Name(), "patch.diff")
+			if _, err := os.Stat(p); err == nil {
+				out = append(out, control{e.Name(), p})
+			}
+		} else if strings.HasSuffix(e.Name(), ".patch") {
+			out = append(out, control{strings.TrimSuffix(e.Name(), ".patch"), filepath.Join(dir, e.Name())})
+		}
+	}
+	sort.Slice(out, func(i, j int) bool { return out[i].name < out[j].name })
+	return out
+}
+
 func (c *Ctx) thorough(pd *propDef) {
 	// (1) second build configuration
 	if P2, err := Load(c.P.Root, "386"); err != nil {
@@ -83,8 +105,20 @@ func (c *Ctx) thorough(pd *propDef) {
 	ctrls := controlsFor(c.Prop)
 	if len(ctrls) == 0 {
 		c.Notes = append(c.Notes, "no seeded change is filed for this property yet: no positive control was run")
-		return
+	} else {
+		c.runControls(ctrls, true)
 	}
+	// (3) negative controls
+	if ben := benignControls(); len(ben) > 0 {
+		c.runControls(ben, false)
+	}
+}
+
+// runControls applies each patch to a scratch copy of the tree and runs this property's quick check on it.
+// wantFlag: the check must report (positive control) / must stay silent (negative control). A miss is a blind spot or a
+// false alarm of the checker, not a defect of the analysed tree: it is printed as a WARNING and recorded, never a
+// VIOLATION.
+func (c *Ctx) runControls(ctrls []control, wantFlag bool) {
 	self, err := os.Executable()
 	if err != nil {
 		return
@@ -93,9 +127,10 @@ func (c *Ctx) thorough(pd *propDef) {
 		name    string
 		flagged bool
 		note    string
+		first   string
 	}
 	results := make([]res, len(ctrls))
-	sem := make(chan struct{}, 4)
+	sem := make(chan struct{}, 6)
 	var wg sync.WaitGroup
 	for i, ct := range ctrls {
 		wg.Add(1)
@@ -125,31 +160,49 @@ func (c *Ctx) thorough(pd *propDef) {
 			out, _ := cmd.CombinedOutput()
 			code := cmd.ProcessState.ExitCode()
 			results[i].flagged = code == 1 && strings.Contains(string(out), "VIOLATION property="+c.Prop)
-			if !results[i].flagged {
-				results[i].note = fmt.Sprintf("exit %d", code)
+			results[i].note = fmt.Sprintf("exit %d", code)
+			for _, ln := range strings.Split(string(out), "\n") {
+				if strings.HasPrefix(ln, "VIOLATED ") {
+					results[i].first = ln
+					break
+				}
+			}
+			if code != 0 && code != 1 {
+				results[i].note = fmt.Sprintf("check failed to run (exit %d)", code)
 			}
 		}(i, ct)
 	}
 	wg.Wait()
-	flagged := 0
+	good := 0
 	var summary []string
+	kind := "positive"
+	if !wantFlag {
+		kind = "negative"
+	}
 	for _, r := range results {
 		switch {
-		case r.flagged:
-			flagged++
-			c.ok("THOROUGH/CONTROL", r.name, "", "seeded breaking change is reported by this check")
-			summary = append(summary, r.name+": reported")
 		case strings.HasPrefix(r.note, "patch does not apply"):
 			c.Notes = append(c.Notes, "control "+r.name+": "+r.note)
 			summary = append(summary, r.name+": skipped")
-		default:
-			// a blind spot of the checker, not a defect of the analysed tree: recorded, never a VIOLATION
+		case wantFlag && r.flagged:
+			good++
+			c.ok("THOROUGH/CONTROL", r.name, "", "seeded breaking change is reported by this check")
+			summary = append(summary, r.name+": reported")
+		case wantFlag:
 			fmt.Printf("WARNING: control %s (a seeded change that breaks %s) is not reported by this check (%s)\n", r.name, c.Prop, r.note)
 			c.Notes = append(c.Notes, "control "+r.name+" NOT reported: "+r.note)
 			summary = append(summary, r.name+": MISSED")
+		case !r.flagged && r.note == "exit 0":
+			good++
+			c.ok("THOROUGH/BENIGN", r.name, "", "behaviour-preserving refactoring raises no alarm")
+			summary = append(summary, r.name+": silent")
+		default:
+			fmt.Printf("WARNING: benign control %s (a behaviour-preserving refactoring) makes the check for %s report: %s (%s)\n", r.name, c.Prop, r.first, r.note)
+			c.Notes = append(c.Notes, "benign control "+r.name+" raised an alarm: "+r.first)
+			summary = append(summary, r.name+": FALSE ALARM")
 		}
 	}
-	c.count("positive controls run", len(ctrls))
-	c.count("positive controls reported", flagged)
-	c.Notes = append(c.Notes, "controls: "+strings.Join(summary, "; "))
+	c.count(kind+" controls run", len(ctrls))
+	c.count(kind+" controls as expected", good)
+	c.Notes = append(c.Notes, kind+" controls: "+strings.Join(summary, "; "))
 }
